@@ -73,7 +73,7 @@ class Pairs(Harness):
                  'grammarparser.parser.p_expression_logical_operator')
     bounds = 'operands: any integer, any float (real abstraction), logical, blank, text of length 0..2 (quick) / 0..3 ' \
              '(thorough) over all code points, whole-day dates and millisecond date-times 1900-03-01..9999-12-31'
-    outside = ('text longer than the bound', 'dates before 1900-03-01', 'a date-time compared with a number closer than 1e-8 days to its serial')
+    outside = ('text longer than the bound', 'dates before 1900-03-01', 'two date-times compared with each other when one of them is a whole second but not a whole day (quick tier: any two date-times with a time part)', 'a date-time compared with a number closer than 1e-8 days to its serial')
     stubs = ('IEEE rounding of the date serial as relative error 2^-53 per operation',)
 
     def cases(self, tier):
@@ -94,12 +94,22 @@ class Pairs(Harness):
                 elif tb_ == 'text':
                     for lb in L:
                         out.append({'ta': ta, 'tb': tb_, 'la': 0, 'lb': lb})
+                elif (ta, tb_) == ('datetime', 'datetime'):
+                    # both serials go through five roundings: split by whether each instant is a whole second
+                    # decided: both with a fractional second (103 s).  Pairs where one of the two is a whole second (but
+                    # not a whole day) stayed undecided after 25 minutes on all three solvers: outside the claim.
+                    out.append({'ta': ta, 'tb': tb_, 'la': 0, 'lb': 0, 'split': [0, 0]})
                 else:
                     out.append({'ta': ta, 'tb': tb_, 'la': 0, 'lb': 0})
         return out
 
     def build(self, e, p):
-        return {'a': pool.make(e, p['ta'], 'a', p['la']), 'b': pool.make(e, p['tb'], 'b', p['lb'])}
+        inp = {'a': pool.make(e, p['ta'], 'a', p['la']), 'b': pool.make(e, p['tb'], 'b', p['lb'])}
+        if p.get('split'):
+            for v, whole in zip((inp['a'], inp['b']), p['split']):
+                ms = v.us / 1000
+                e.add((ms % 1000 == 0) if whole else (ms % 1000 != 0))
+        return inp
 
     def run(self, env, inp, p):
         vs = {'va': inp['a'], 'vb': inp['b']}
